@@ -34,8 +34,8 @@ CLAIM = dict(
          "receivers/arguments x 13 semantics-changing keywords and the heap reachable from the arguments is compared before/after with the category's claim; its statement "
          "mapping is judged by a differential corpus of 186 functions (a function the checker accepts must really modify nothing); 40 fail-closed probes. Still assumed: "
          "parameters documented as numbers/strings are immutable scalars, user callbacks do not modify their arguments, object-dtype arrays are out of scope; methods of the "
-         "classes myQueue/_ListDict_ are modelled by the tables (and validated the same way), not translated; reading a caller's defaultdict (which inserts keys) is "
-         "deliberately not an alarm (DESIGN C19).")
+         "classes myQueue/_ListDict_ are modelled by the tables (and validated the same way), not translated; reading the `IC` defaultdict of the two contagion simulators (which inserts keys) is "
+         "deliberately not an alarm (DESIGN C19); any other caller's defaultdict that has grown is reported.")
 
 PROPOSED = os.path.join(C.VERIF, 'proposed_known_findings.json')
 TRANSLATOR = os.path.join(C.VERIF, 'translate', 'effects2v.py')
